@@ -85,6 +85,26 @@ def delete_m2m_family():
     return out
 
 
+def custom_field_family():
+    """deterministic family: fields of two or three project-defined field classes (one module) are added: the written
+    evolution imports them; its text must not depend on the hash seed either"""
+    out = []
+    for kinds in (['ShortCodeField', 'CountField'], ['CountField', 'AmountField', 'ShortCodeField'],
+                  ['AmountField', 'CountField']):
+        base = {'name': 'Alpha', 'table': 'vapp_alpha', 'unique_together': [], 'index_together': [], 'indexes': [],
+                'constraints': [], 'fields': [fld('id', 'AutoField', primary_key=True), fld('a', 'IntegerField', null=True)]}
+        new_fields = [fld('x%d' % i, k, null=True, **({'max_length': 8} if k == 'ShortCodeField' else {}))
+                      for i, k in enumerate(kinds)]
+        m1 = dict(base, fields=base['fields'] + new_fields)
+        out.append({'spec0': {'apps': [{'id': 'vapp', 'models': [base]}]},
+                    'spec1': {'apps': [{'id': 'vapp', 'models': [m1]}]},
+                    'muts': [{'t': 'AddField', 'model': 'Alpha', 'field': f['name'], 'ftype': f['type'], 'initial': None,
+                              'attrs': [['null', 'true']] + ([['max_length', '8']] if f['type'] == 'ShortCodeField' else [])}
+                             for f in new_fields],
+                    'rows': False, 'family': 'custom-field-imports'})
+    return out
+
+
 def set_order_sensitive(case):
     """a ChangeMeta(unique_together/index_together) that adds or removes at least two entries"""
     old = {}
@@ -136,8 +156,8 @@ def run(ctx):
                 'run in %d processes with different PYTHONHASHSEED, each doing `evolve --sql`, `evolve --hint`, '
                 '`evolve --execute`; non-trivial = the preview has at least one statement' % len(seeds))
     flag = ctx.variant.get('together_iteration')
-    n = 79 if quick else 600
-    cases = [{'case': c, 'seed': i} for i, c in enumerate(together_family() + index_family() + delete_m2m_family())]
+    n = 82 if quick else 600
+    cases = [{'case': c, 'seed': i} for i, c in enumerate(together_family() + index_family() + delete_m2m_family() + custom_field_family())]
     tries = 0
     while len(cases) < n + 10 and tries < n * 6:
         tries += 1
